@@ -385,6 +385,13 @@ func TestC11_RedirectTargets(t *testing.T) {
 		case "bad-audience":
 			q.Set("audience", "https://nobody.example")
 		}
+		// history: an exactly registered target may have been used successfully just before (a remembered match must
+		// not vouch for the next request)
+		if rapid.IntRange(0, 3).Draw(rt, "validRequestFirst") == 0 {
+			wq := url.Values{"client_id": {"c11"}, "response_type": {"code"}, "state": {"state-0123456789"}, "nonce": {"nonce-0123456789"}, "scope": {"a"}, "redirect_uri": {regStr[rapid.IntRange(0, nreg-1).Draw(rt, "warmWith")]}}
+			w.Authorize(wq, h.Consent{})
+			h.Label("valid-request-first")
+		}
 		var res *h.AuthzResult
 		if inject == "consent-denied" {
 			// the integrator reports the user's refusal through WriteAuthorizeError
